@@ -8,10 +8,12 @@ import json, os, re, sys
 repo, build = sys.argv[1], sys.argv[2]
 src = os.path.join(repo, "node/pkg/supervisor/supervisor.go")
 text = open(src).read()
-if text.count("mu sync.RWMutex") != 1 or len(re.findall(r"\bsync\.", text)) != 1:
-    sys.stderr.write("supsim overlay: expected exactly one use of sync (mu sync.RWMutex) in supervisor.go\n")
+if len(re.findall(r"\bmu\s+sync\.RWMutex\b", text)) != 1:
+    sys.stderr.write("supsim overlay: expected exactly one declaration 'mu sync.RWMutex' in supervisor.go\n")
     sys.exit(1)
-text = text.replace("mu sync.RWMutex", "mu verifRWMutex").replace('\t"sync"\n', "")
+text = re.sub(r"\bmu(\s+)sync\.RWMutex\b", r"mu\1verifRWMutex", text)
+if not re.search(r"\bsync\.", re.sub(r"//[^\n]*", "", text)):
+    text = text.replace('\t"sync"\n', "")
 out = os.path.join(build, "supsim_supervisor.go")
 open(out, "w").write(text)
 print(json.dumps({src: out}))
